@@ -56,3 +56,158 @@ REG['C01'] = Spec('C01', c01_jobs, memsafe=True, explanation=
     'Per member operation one harness: arbitrary valid pre-state (inline or heap, any size <= capacity, any element values) -> the operation with symbolic '
     'arguments -> size(), every element, returned iterator position / reference / at() exception compared with a sequence model carrying std::vector\'s specified semantics. '
     'Because the post-state again satisfies the invariant the per-operation result extends to call histories by induction (up to the capacity bound).')
+
+def _nn(js): return [j for j in js if j is not None]
+FAULT_W = ['normal return', 'exceptional exit (injected fault)']
+
+# ---------------------------------------------------------------- C02: storage invariants on every exit
+def c02_jobs(tier):
+    js = []
+    if tier == 'quick':
+        for op in OPS_ALL:
+            for (n, cap) in cells(tier): js.append(ops_job(op, 'int', n, cap))
+        for op in ['insert_n', 'push_back_c', 'resize_v', 'assign_n', 'shrink', 'reserve', 'erase_range']:
+            js.append(ops_job(op, 'Tr', 2, 4, fmask=J.K_ALL, witness=FAULT_W if op != 'erase_range' else None))
+        for op in ['insert_c', 'resize_v', 'push_back_c']:
+            js.append(ops_job(op, 'TrX', 2, 2, fmask=J.K_ALL, witness=FAULT_W))
+    else:
+        for op in OPS_ALL:
+            for (n, cap) in cells(tier):
+                js.append(ops_job(op, 'int', n, cap, maxcnt=3))
+                js.append(ops_job(op, 'Tr', n, cap, fmask=J.K_ALL))
+            for (n, cap) in [(2, 2), (2, 4)]:
+                if elem_supports('TrX', op): js.append(ops_job(op, 'TrX', n, cap, fmask=J.K_ALL))
+    return _nn(js)
+REG['C02'] = Spec('C02', c02_jobs, explanation=
+    'The representation invariant INV(v) (size<=capacity<=max(max_size,N), capacity>=N, inlined() iff capacity()==N iff data() inside the object / null for N==0, '
+    'heap data() is a live ledger block of exactly capacity() elements owned by an equal allocator, contiguity, iterator flavours agree, inlinable()) is asserted on '
+    'every exit (normal, injected-exception, length_error) of every operation started from an arbitrary state satisfying INV; shrink_to_fit additionally capacity()==max(size(),N).')
+
+# ---------------------------------------------------------------- C03: element lifetimes
+def c03_jobs(tier):
+    js = []
+    if tier == 'quick':
+        for op in OPS_ALL:
+            if op in ('at', 'access'): continue
+            js.append(ops_job(op, 'Tr', 2, 4))
+        for op in ['insert_n', 'insert_c', 'push_back_c', 'resize_v', 'assign_n', 'emplace_back', 'erase_range', 'insert_range']:
+            js.append(ops_job(op, 'Tr', 2, 2))
+        for op in ['insert_n', 'insert_c', 'resize_v', 'assign_n', 'push_back_c']:
+            js.append(ops_job(op, 'Tr', 2, 4, fmask=J.K_ALL, witness=FAULT_W))
+        for op in ['push_back_m', 'insert_m', 'resize', 'erase1']:
+            js.append(ops_job(op, 'TrM', 2, 4)); js.append(ops_job(op, 'TrC', 2, 2) if op in ('resize', 'erase1') else None)
+        js.append(ops_job('insert_c', 'TrX', 0, 2, fmask=J.K_ALL, witness=FAULT_W))
+    else:
+        for el in ['Tr', 'TrX', 'TrM', 'TrC']:
+            for op in OPS_ALL:
+                if op in ('at', 'access') or not elem_supports(el, op): continue
+                for (n, cap) in (cells(tier) if el == 'Tr' else [(0, 2), (2, 2), (2, 4)]):
+                    js.append(ops_job(op, el, n, cap, fmask=J.K_ALL, extra_defs={'VF_NFAULTS': 2 if op.startswith('insert') else 1}))
+    return _nn(js)
+REG['C03'] = Spec('C03', c03_jobs, memsafe=True, explanation=
+    'Instrumented element types carry an in-object shadow state (RAW/LIVE/MOVED/DEAD) owned by the C side. Every constructor/assignment/destructor hook asserts '
+    'its lifetime pre-condition (no construct over live, no read/assign/destroy of non-live storage) at every step inside the operation; on every exit live objects == size() '
+    '(+ harness-owned arguments), slots [0,size) alive and [size,capacity) not; after destruction every object constructed was destroyed once.')
+
+# ---------------------------------------------------------------- C04: allocations paired, inline avoids allocator
+def c04_jobs(tier):
+    js = []
+    if tier == 'quick':
+        for op in OPS_ALL:
+            if op in ('at', 'access'): continue
+            for (n, cap) in cells(tier): js.append(ops_job(op, 'int', n, cap))
+        for op in ['insert_n', 'push_back_c', 'resize_v', 'assign_n', 'reserve', 'shrink', 'insert_range']:
+            js.append(ops_job(op, 'Tr', 2, 4, fmask=J.K_ALL, witness=FAULT_W))
+        for op in ['push_back_c', 'insert_c', 'resize_v']:
+            js.append(ops_job(op, 'Tr', 2, 2, fmask=J.K_ALL, witness=FAULT_W))
+    else:
+        for op in OPS_ALL:
+            if op in ('at', 'access'): continue
+            for (n, cap) in cells(tier):
+                js.append(ops_job(op, 'int', n, cap, maxcnt=3))
+                js.append(ops_job(op, 'Tr', n, cap, fmask=J.K_ALL))
+    return _nn(js)
+REG['C04'] = Spec('C04', c04_jobs, explanation=
+    'Allocator ledger: every deallocate must find its live block with the same element count and an equal allocator id (also cbmc double-free / freed-object checks); on every exit '
+    'the live blocks are exactly the buffers of non-inlined containers; after destruction the ledger is empty and allocate/deallocate counts are equal. '
+    '"Fits => no allocate": the allocate counter is unchanged whenever the model result fits the capacity observed before the call (shrink_to_fit excepted).')
+
+# ---------------------------------------------------------------- C05: strong exception guarantee
+def c05_jobs(tier):
+    js = []
+    cs = [(2, 2), (2, 4), (0, 2)] if tier == 'quick' else cells(tier)
+    for op in OPS_STRONG:
+        for el in (['TrX', 'Tr'] if tier == 'quick' else ['TrX', 'Tr', 'TrC']):
+            if not elem_supports(el, op): continue
+            for (n, cap) in cs:
+                if tier == 'quick' and el == 'Tr' and (n, cap) != (2, 4): continue
+                js.append(ops_job(op, el, n, cap, fmask=J.K_ALL, witness=FAULT_W))
+    return _nn(js)
+REG['C05'] = Spec('C05', c05_jobs, explanation=
+    'For each strongly-guaranteed growing call (push_back x2, emplace_back, insert/emplace of one element at end(), reserve, resize x2, shrink_to_fit, append x2) on element types whose '
+    'copy and move constructors (and the allocator) may throw: the throw point is a solver variable (vf_fault counter == symbolic input); on exceptional exit size, every value, '
+    'every element state (none moved-from), the block ledger, and for the std::vector-specified operations capacity() and data(), must equal the snapshot taken before the call. '
+    'A witness proves the exceptional exit is reachable in every configuration.')
+
+# ---------------------------------------------------------------- C06: basic exception guarantee
+def c06_jobs(tier):
+    js = []
+    muts = [op for op in OPS_ALL if op not in ('at', 'access', 'clear', 'pop_back', 'erase1', 'erase_range')]
+    if tier == 'quick':
+        for op in muts:
+            js.append(ops_job(op, 'TrX' if elem_supports('TrX', op) else 'TrM', 2, 4, fmask=J.K_ALL, witness=FAULT_W))
+        for op in ['insert_n', 'insert_c', 'assign_n', 'resize_v', 'insert_range', 'erase_range', 'erase1']:
+            js.append(ops_job(op, 'TrX', 2, 2, fmask=J.K_ALL, witness=FAULT_W))
+        js.append(ops_job('insert_n', 'Tr', 2, 4, fmask=J.K_ALL, extra_defs={'VF_NFAULTS': 2}, witness=FAULT_W, tag='-2f'))
+    else:
+        for op in muts + ['erase1', 'erase_range']:
+            for el in ['TrX', 'Tr', 'TrC', 'TrM']:
+                if not elem_supports(el, op): continue
+                for (n, cap) in (cells(tier) if el == 'TrX' else [(2, 2), (2, 4)]):
+                    js.append(ops_job(op, el, n, cap, fmask=J.K_ALL, extra_defs={'VF_NFAULTS': 2}, witness=FAULT_W, tag='-2f'))
+    return _nn(js)
+REG['C06'] = Spec('C06', c06_jobs, tags=['C06', 'C02', 'C03', 'C04'], memsafe=True, explanation=
+    'Every mutating operation with faults injected at element copy/move/assign/default/value construction and allocate (throw point(s) = solver variables; two faults for roll-back paths in the thorough tier): '
+    'on exceptional exit INV holds, live objects == size(), ledger consistent, then clear(); push_back(x) must work and INV must hold again; destruction leaves no object or block.')
+
+# ---------------------------------------------------------------- C10: no reallocation while capacity suffices
+def c10_jobs(tier):
+    js = []
+    ops = [op for op in OPS_ALL if op not in ('at', 'access')]
+    if tier == 'quick':
+        for op in ops:
+            for (n, cap) in cells(tier): js.append(ops_job(op, 'int', n, cap))
+        for op in ['insert_n', 'insert_c', 'push_back_c', 'resize_v', 'assign_n', 'emplace', 'insert_range', 'append_range', 'erase_range', 'reserve', 'emplace_back']:
+            js.append(ops_job(op, 'Tr', 2, 4))
+    else:
+        for op in ops:
+            for (n, cap) in cells(tier):
+                js.append(ops_job(op, 'int', n, cap, maxcnt=3)); js.append(ops_job(op, 'Tr', n, cap, maxcnt=3))
+    return _nn(js)
+REG['C10'] = Spec('C10', c10_jobs, tags=['C10'], explanation=
+    'From an arbitrary state: when the model result fits capacity() observed before the call, capacity(), data() and the allocate counter are unchanged and (instrumented type) the per-object touch counter of every '
+    'element before the first modified position is unchanged; reserve(n) gives capacity()>=n and is event-free when n<=capacity(); pop_back/erase/clear never change capacity()/data(); '
+    'a growing call with known count allocates exactly once.')
+
+# ---------------------------------------------------------------- C11: self-aliasing arguments
+def c11_jobs(tier):
+    js = []
+    for op in OPS_ALIAS:
+        for el in ['int', 'Tr']:
+            for (n, cap) in ([(2, 2), (2, 4), (0, 2)] if tier == 'quick' else [c for c in cells(tier) if c[1] > 0]):
+                if tier == 'quick' and el == 'Tr' and (n, cap) == (0, 2): continue
+                js.append(ops_job(op, el, n, cap, alias=1, maxcnt=2 if tier == 'quick' else 3))
+    return _nn(js)
+REG['C11'] = Spec('C11', c11_jobs, tags=['C11', 'C01'], memsafe=True, explanation=
+    'push_back(v[i]), emplace_back(v[i]), insert(pos,v[i]), insert(pos,n,v[i]), emplace(pos,v[i]), resize(n,v[i]) with symbolic i<size, pos<=size, n, from every (rep,cap,size) cell, '
+    'reallocating and in place; oracle: the sequence model applied to a copy of m[i] taken before the call.')
+
+# ---------------------------------------------------------------- C14 (b): every growing path grows geometrically
+def c14_jobs(tier):
+    js = []
+    for op in OPS_GROW:
+        for (n, cap) in cells(tier):
+            js.append(ops_job(op, 'int', n, cap, maxcnt=2 if tier == 'quick' else 3, witness=['normal return', 'reallocating path']))
+        if tier != 'quick':
+            for (n, cap) in [(2, 2), (2, 4)]: js.append(ops_job(op, 'Tr', n, cap, witness=['normal return', 'reallocating path']))
+    return _nn(js)
